@@ -35,7 +35,7 @@ impl Prop for C10T {
         "fault_enumeration"
     }
     fn budget(&self, thorough: bool) -> u64 {
-        if thorough { 3_000_000 } else { 200_000 }
+        if thorough { 3_000_000 } else { 600_000 }
     }
     fn generate(&self, seed: u64, thorough: bool) -> Scenario {
         let mut rng = Rng::new(seed);
